@@ -268,6 +268,14 @@ Theorem C01_closed_step : forall K o,
 Proof. exact closed_step. Qed.
 Print Assumptions C01_closed_step.
 
+(* lone insert_simplex: closed and monotone are kept when the proper faces are present with values <= v *)
+Theorem C01_closed_step_insert_simplex : forall K s v,
+  good K = true -> NoDup (keys K) -> norm s <> [] ->
+  (forall t', t' <> [] -> t' <> norm s -> subseq t' (norm s) = true -> exists w', lookup K t' = Some w' /\ w' <= v) ->
+  good (spec_step K (OInsert s v)) = true.
+Proof. exact closed_step_insert. Qed.
+Print Assumptions C01_closed_step_insert_simplex.
+
 Theorem C01_preconditions_suffice : forall ops,
   forallb refined_op ops = true -> pre_history ops = true -> ok_history ops = true.
 Proof. exact pre_history_ok. Qed.
